@@ -82,6 +82,18 @@ def gen_edit(rng, world, path, who, style="plain"):
     kinds = ["insert", "insert", "replace", "delete", "modify", "reindent", "append"]
     kind = rng.pick(kinds) if lines else "insert"
     n = len(lines)
+    others = [i for i, l in enumerate(lines) if l[1] != ghost and l[1] is not None]
+    if others and rng.chance(1, 6):
+        # the editor rewrites or deletes EVERY line currently owned by an AI session other than itself
+        # (for a person: every AI line of the file)
+        kind = rng.pick(["rewrite_all_ai", "delete_all_ai"])
+        if kind == "rewrite_all_ai":
+            for i in others:
+                lines[i] = world.fresh(gen_text(rng, world, style), ghost)
+        else:
+            for i in reversed(others):
+                del lines[i]
+        return kind
     if kind in ("insert", "append"):
         pos = n if kind == "append" else rng.below(n + 1)
         k = 1 + rng.below(3)
@@ -122,6 +134,7 @@ class Runner:
         self.env = env
         self.repo = env.repo(name)
         self.ghost = {}          # path -> list of [text, ghost, uid] (working tree truth)
+        self.index = {}          # path -> list of [text, ghost, uid] (what is staged)
         self.commits = []        # (sha, {path: lines at commit})
         self.file_opts = file_opts or {}
         self.log = []            # executed steps with results
@@ -158,16 +171,31 @@ class Runner:
             res = r.human_checkpoint(st.get("paths"))
         elif op == "checkpoint":
             res = r.ai("checkpoint")
+        elif op == "stage_content":
+            # emulate `git add -p`: put an explicit version of the file into the index
+            path = st["path"]
+            o = self.opts(path)
+            data = content_of(st["lines"], o.get("final_newline", True), o.get("crlf", False))
+            rc, oid, err = r.plain_git("hash-object", "-w", "--stdin", input=data.encode("utf-8"))
+            res = r.git("update-index", "--add", "--cacheinfo", f"100644,{oid.strip()},{path}")
+            self.index[path] = [list(l) for l in st["lines"]]
         elif op == "commit":
-            if st.get("paths"):
+            mode = st.get("add", "paths" if st.get("paths") else "all")
+            if mode == "paths":
                 r.git("add", "--", *st["paths"])
-            else:
+                for p in st["paths"]:
+                    if p in self.ghost:
+                        self.index[p] = [list(l) for l in self.ghost[p]]
+                    else:
+                        self.index.pop(p, None)
+            elif mode == "all":
                 r.git("add", "-A")
+                self.index = {p: [list(l) for l in ls] for p, ls in self.ghost.items()}
             rc, out, err = r.git("commit", "-q", "-m", st.get("msg", "c"), *st.get("extra", []))
             res = (rc, out, err)
             if rc == 0:
                 sha = r.head()
-                self.commits.append((sha, {p: [list(l) for l in ls] for p, ls in self.ghost.items()}))
+                self.commits.append((sha, {p: [list(l) for l in ls] for p, ls in self.index.items()}))
         elif op == "git":
             res = r.git(*st["args"])
         elif op == "plain_git":
